@@ -26,6 +26,10 @@ Record rp := mkRp {
   r_tepos : nat
 }.
 
+(* the classes the per-invocation machine knows how to run *)
+Definition well_classed (r : rp) : bool :=
+  match r_class r with ClInjector | ClFallible | ClFinal | ClWrapper => true | _ => false end.
+
 Notation env := (nat -> val) (only parsing).
 
 Definition upd (e : nat -> val) (t : nat) (v : val) : nat -> val := fun x => if x =? t then v else e x.
